@@ -29,7 +29,7 @@ MANIFEST = dict(
 )
 
 RULE = ("border styles (incl. '' = none) for rtf_page.border_first/last and rtf_body.border_first/last × header mode × footnote/source "
-        "(table, paragraph, absent) × placement × 1..many pages × strategies × per-cell user border matrices; plus "
+        "(table, paragraph, absent) × placement × 1..many pages × strategies × per-cell user border matrices (full, or 2-3-row patterns recycled over the rows); plus "
         "multi-section documents for the first/last clauses; non-trivial = ≥ 2 pages; distinct by the configuration "
         "tuple and page sizes")
 
@@ -120,7 +120,9 @@ class C07(layfamily.Family):
         if rng.random() < 0.6:
             sides = ["border_left", "border_right"] if empties else ["border_top", "border_bottom", "border_left", "border_right"]
             for side in rng.sample(sides, rng.randint(1, min(3, len(sides)))):
-                m = [[rng.choice(STYLES + ["", ""]) for _ in range(ncols)] for _ in range(n)]
+                # a full per-row matrix, or a short pattern of 2-3 rows that rtflite recycles over the table rows
+                nr = n if rng.random() < 0.65 else rng.choice([2, 3])
+                m = [[rng.choice(STYLES + ["", ""]) for _ in range(ncols)] for _ in range(nr)]
                 if side == "border_top":
                     m[0] = [""] * ncols     # see MANIFEST note: keep table row 0 empty
                 spec["body"][side] = m
